@@ -6,8 +6,8 @@ chk('C08', MC,
     'Arrays up to length 4; native assert() and evaluator exit() are taken as process termination; generated-C wrappers are thin calls (read, not encoded); whole programs are covered by the program family of C01/C04 only.',
     'CBMC bounded model checking of real VM step / dyn_array / evaluator builtins, symbolic index', 'DESIGN.md 4/C08')
 chk('C10', MC,
-    'CBMC on the real nvm_format.c: for each module shape (built through the public nvm_add_* API) and ALL contents, deserialize(serialize(m)) == m field by field and serialize is idempotent byte for byte.',
-    'Module shapes bounded (<=3 strings, <=2 functions/imports/debug entries, <=6 code bytes); CRC modelled as uninterpreted function; exit status of the three runners: see evidence outside_claim.',
+    'CBMC on the real nvm_format.c: for each module shape (built through the public nvm_add_* API) and ALL contents, deserialize(serialize(m)) == m field by field and serialize is idempotent byte for byte; and the real nano_vm run_standalone and nano_virt --run drivers derive the same exit status (main\'s int result, 1 on a run-time error) from every VM outcome.',
+    'Module shapes bounded (<=3 strings, <=2 functions/imports/debug entries, <=6 code bytes); CRC modelled as uninterpreted function; the generated wrapper executable and stdout equality are outside (evidence outside_claim).',
     'CBMC bounded model checking of serialize/deserialize round trip, symbolic contents', 'DESIGN.md 4/C10')
 chk('C11', MC,
     'Bounded symbolic model checking (CBMC) of the real isa.c: for each of the 256 opcode bytes, decode(encode(i))=i and encode(decode(b))=b, truncation and undefined-byte refusal, no stray writes, for ALL operand payloads, buffer contents and lengths 0..32. The instruction space is finite, so this is complete for the binary codec.',
